@@ -907,7 +907,7 @@ fn extract<'tcx>(tcx: TyCtxt<'tcx>, name: &str) -> J {
                 let g = tcx.generics_of(did);
                 for i in 0..g.count() {
                     let p = g.param_at(i, tcx);
-                    if matches!(p.kind, ty::GenericParamDefKind::Type { .. }) {
+                    if matches!(p.kind, ty::GenericParamDefKind::Type { .. } | ty::GenericParamDefKind::Const { .. }) {
                         names.push(s(p.name));
                     }
                 }
